@@ -1,4 +1,5 @@
 import Driver.Conv
+import Driver.Kv
 
 partial def loop (h : IO.FS.Stream) (out : IO.FS.Stream) (f : String → String) : IO Unit := do
   let line ← h.getLine
@@ -10,6 +11,8 @@ partial def loop (h : IO.FS.Stream) (out : IO.FS.Stream) (f : String → String)
 def dispatch : List String → Option (String → String)
   | ["model", "conv"] => some Driver.Conv.model
   | ["oracle", "conv"] => some Driver.Conv.oracle
+  | ["model", "kv"] => some Driver.Kv.model
+  | ["oracle", "kv"] => some Driver.Kv.oracle
   | _ => none
 
 def main (args : List String) : IO UInt32 := do
